@@ -450,7 +450,9 @@ MANIFEST_TEXT = {
         "text": "For the emitters that build every RTF fragment (border, cell, paragraph/text formatting, text run, row, data rows, page break, page "
                 "settings, colour table, picture group) the real f-strings are shown brace-balanced with non-negative prefix balance, ASCII, with integral "
                 "numeric parameters; a row has exactly one \\cellx and one \\cell per cell in the same order; the single-section document is "
-                "'{\\rtf1...' + prolog in fixed order + pages + a single closing brace last; implicit exceptions inside these units are proof obligations.",
+                "'{\\rtf1...' + prolog in fixed order + pages + a single closing brace last; title / subline / page header / page footer / footnote / source "
+                "text blocks, the subline_by heading paragraph and group heading rows are balanced ASCII; a column header without text contributes no row "
+                "and raises nothing; implicit exceptions inside these units are proof obligations.",
         "note": "User text is assumed balanced (the property's hypothesis). Carriers not yet under contract are listed in the evidence; glue totality (pydantic/polars) is assumed.",
     },
     "C02": {
@@ -462,15 +464,18 @@ MANIFEST_TEXT = {
     "C05": {
         "text": "Loop invariant with ghost heading state on the real _render_body (1, 2 and 3 page_by levels): at every emission of data rows each "
                 "active level's displayed heading equals that run's value, outer headings precede inner ones, dividers and nulls never produce a heading, "
-                "all rows are still emitted, and the body never ends on a heading.",
-        "note": "Boundary detection and page-top headings are assumed per their contracts (A8/A9) and named as not yet under contract.",
+                "all rows are still emitted, and the body never ends on a heading; at the top of a page render emits one full-width heading row per "
+                "non-null group value of the page, outer to inner, before the body (1 level quick, 2 levels thorough); the subline_by heading is one "
+                "paragraph naming the page's group.",
+        "note": "Boundary detection and the page's group values are the strategies' contracts (A8/A9, units GetGroupHeaders / DetectGroupBoundaries).",
     },
     "C07": {
         "text": "For every page kind (first / middle / last / only page) and all flag combinations the real _apply_pagination_borders yields border "
                 "matrices with: row 0 top = body.border_first (page.border_first on a first page without headers), last row bottom = body.border_last "
                 "before a break unless a table-rendered footnote/source on that page takes it, page.border_last at the document end unless a "
                 "table-rendered component takes it, every other edge = the user's broadcast value; the attributes are a fresh copy.",
-        "note": "Header-row top border and the component override emitters are named as not yet under contract.",
+        "note": "The component override reaches encode_footnote / encode_source through render and is applied to a copy (units RenderPage, "
+                "EncodeFootnote, EncodeSource). The header-row top border (_render_column_headers) is named as not yet under contract.",
     },
     "C09": {
         "text": "Every formatting field handed to the cell/text/border/row constructors in the real _encode equals the attribute's broadcast value at "
@@ -499,22 +504,28 @@ MANIFEST_TEXT = {
     "C06": {
         "text": "Proof, for all keywords and flag values, that both placement predicates equal all | first&is_first | last&is_last, and, for "
                 "all positive paper sizes and margins, that the page-break block and the document-start block emit the same eight integers "
-                "round(inches*1440) in the fixed order with integral parameters (token view of the real f-strings).",
-        "note": "Floats are reals, round() is a deterministic nearest-integer function. The ordering of blocks on a page (render) and the "
-                "figure-document loop are listed as carriers not yet under contract; nothing is claimed for them here.",
+                "round(inches*1440) in the fixed order with integral parameters (token view of the real f-strings). On the real PageRenderer.render "
+                "every component (break, title, subline, subline heading, figure, column headers, page-top headings, body, footnote, source) is present "
+                "exactly when its placement condition holds for the page, at most once, in that fixed order; strategies set needs_header / first / last.",
+        "note": "Floats are reals, round() is a deterministic nearest-integer function. RenderPage abstracts each callee's chunks by one marker; its "
+                "2-level page_by variant runs in the thorough tier. The figure-only and multi-section page loops are named as not yet under contract.",
     },
     "C08": {
         "text": "Unbounded proof on the real Utils._col_widths (any column count, any positive widths): boundaries are exactly "
-                "col_width*P[k+1]/sum, strictly increasing, first positive, last equal to col_width; inch_to_twip is within half a twip.",
-        "note": "Real arithmetic instead of IEEE doubles. Covers the arithmetic carrier of the property; the propagation of width vectors "
-                "through document construction and column removal is named as not yet under contract.",
+                "col_width*P[k+1]/sum, strictly increasing, first positive, last equal to col_width; inch_to_twip is within half a twip. Every data "
+                "cell's width is col_widths[j] and every cell ends with \\cellx round(1440*width); group heading rows are one cell of the table width; "
+                "column headers are laid out on the table width with exactly one relative width per header cell (inherited full-table widths are "
+                "replaced by the displayed columns' widths); table-rendered footnote / source span the table width.",
+        "note": "Real arithmetic instead of IEEE doubles. The width vectors produced by document construction (RTFDocument.__init__) and column "
+                "removal (prepare_dataframe_for_body_encoding, _encode_body_section) are named as not yet under contract; their results are assumed.",
     },
     "C10": {
         "text": "One symbolic code point stands for all 1.1M scalar values: every appended piece is ASCII, every \\u parameter lies in "
                 "[-32768, 32767] with exactly one fallback character, and the RTF decode of the piece (incl. UTF-16 surrogate pairs) is the "
-                "input character; the loop invariant lifts this to whole strings of any length.",
+                "input character; the loop invariant lifts this to whole strings of any length. The cell / paragraph / plain templates, the "
+                "subline_by heading and the title / footnote text blocks use the escaped text exactly once and never the raw text.",
         "note": "Decode rule and concatenation homomorphisms are the trusted mathematical base; raw \\ { } and control characters are outside "
-                "the domain; text-bearing call sites other than the escaping function itself are named as not yet under contract.",
+                "the domain.",
     },
     "C11": {
         "text": "Proved on the real code: conversion off returns the text verbatim (then only character escaping), conversion on applies the "
